@@ -490,7 +490,10 @@ func (s *setSubj[T]) doRead(op Op, other *setSubj[T]) string {
 			o = other
 		}
 		r := setAlgebra[T](s.s, o.s, op.N)
-		return s.canon(r.Values())
+		if s.cfg.Kind == "treeset" {
+			return s.canon(r.Values())
+		}
+		return bracket(sortedStrings(mapS(r.Values(), s.class))) // result order of the hash-based kinds is unspecified
 	}
 	if setIter(s.s) == nil {
 		return "n/a"
